@@ -1210,6 +1210,76 @@ func c01R10(p *core.Program, r *core.Report) {
 			}
 		})
 	}
+	// and the comparison decides: evaluated for a category whose exit is set but is not among the node's exits, validate
+	// reaches the helper and returns an error
+	{
+		helper := map[*ssa.Function]bool{}
+		for _, h := range holders[1:] {
+			helper[h.fn] = true
+		}
+		sawInvalid, errAfterInvalid, nilAfterInvalid := false, false, false
+		res := core.ExplorePaths(val, core.PathRules{
+			LoopBound: 1,
+			OnBranch: func(s *core.PathState, cond ssa.Value) core.AB {
+				bo, ok := cond.(*ssa.BinOp)
+				if !ok || (bo.Op != token.EQL && bo.Op != token.NEQ) {
+					return core.Unk
+				}
+				isExitUUID := func(v ssa.Value) bool {
+					c, ok := core.StripConv(v).(*ssa.Call)
+					return ok && c.Call.IsInvoke() && c.Call.Method.Name() == "ExitUUID"
+				}
+				if sc, ok := core.ConstString(bo.Y); ok && sc == "" && isExitUUID(bo.X) {
+					return boolAB(bo.Op == token.NEQ)
+				}
+				if sc, ok := core.ConstString(bo.X); ok && sc == "" && isExitUUID(bo.Y) {
+					return boolAB(bo.Op == token.NEQ)
+				}
+				return core.Unk
+			},
+			OnCall: func(s *core.PathState, c ssa.CallInstruction) []core.CallOutcome {
+				com := c.Common()
+				if com.IsInvoke() && com.Method.Name() == "AllowTimeout" {
+					return []core.CallOutcome{{Result: core.False}}
+				}
+				if g := com.StaticCallee(); g != nil {
+					if helper[g] {
+						return []core.CallOutcome{{Result: core.False, Effects: []core.Effect{{Kind: "INVALID", Instr: c}}}}
+					}
+					if g.Name() == "AllowTimeout" {
+						return []core.CallOutcome{{Result: core.False}}
+					}
+				}
+				return nil
+			},
+			OnExit: func(s *core.PathState, ret *ssa.Return, pan *ssa.Panic) {
+				if ret == nil {
+					return
+				}
+				inv := false
+				for _, e := range s.Effects {
+					if e.Kind == "INVALID" {
+						inv = true
+					}
+				}
+				if !inv {
+					return
+				}
+				sawInvalid = true
+				if core.IsNilConst(ret.Results[0]) {
+					nilAfterInvalid = true
+				} else {
+					errAfterInvalid = true
+				}
+			},
+		})
+		if res.Truncated {
+			r.Unknown("R10", "baseRouter.validate/invalid-exit-is-an-error", p.Pos(val.Pos()), "path budget exceeded")
+		} else if len(helper) > 0 {
+			r.Check(sawInvalid && errAfterInvalid && !nilAfterInvalid, "R10", "baseRouter.validate/invalid-exit-is-an-error", p.Pos(val.Pos()), "a set exit that is not among the node's exits leads to the error return on every path",
+				"for a category whose exit is set but is not one of the node's exits, baseRouter.validate does not return an error (the validity helper is not reached, or its negative answer is ignored): the definition loads, a resumed session leaves the wait by an exit that is not on its node and is not among the inspected waiting exits")
+		}
+	}
 	r.Check(compared, "R10", "baseRouter.validate/category-exit-among-node-exits", p.Pos(val.Pos()), "Exit.UUID() of the node's exits is compared at "+where,
 		"baseRouter.validate never compares anything with the UUID() of the exits it is given: a category may point at an exit of another node, the run then leaves by an exit that is not on its node and silently completes (the path is no longer a walk in the flow's graph)")
 }
